@@ -61,7 +61,7 @@ static void on_alarm(int) { emit("result hung"); flush_trace(); _exit(0); }
 static int run_program(const std::vector<std::string>& lines) {
     signal(SIGALRM, on_alarm); alarm(10);
     init();
-    photon::verif::hook = nullptr;
+    photon::verif::hook = [](int p, const void*, uint64_t a, uint64_t b) { if (p == photon::verif::GUARD && !a) emit("guard-violation lock site=%lu", (unsigned long)b); };
     std::string kind = "qrw";
     for (auto& l : lines) {
         std::istringstream is(l); std::string w; is >> w;
